@@ -89,6 +89,9 @@ def gen_case(rng, i, kinds):
 
 def hostile_op(rng, w, conv):
     r = rng.random()
+    if r < 0.12:
+        # a recent packet re-delivered with its sequence number moved back: a segment that straddles rcv_nxt (partially duplicate data)
+        return "j%s%d:4~%d" % (w, rng.randrange(0, 16), rng.choice([1, 2, 10, 100, 180, 500, 1000, 1283]))
     if r < 0.35:
         # mutate a recent packet: header field offsets 0-3 conv, 4-7 seq, 8-11 ack, 13 flags, 14-15 wnd, 16-23 ts, 24.. data/options
         muts = []
